@@ -18,7 +18,7 @@ from ..core import rule, AnalysisError
 from ..engine import rx, cfg as cfgmod, flow
 from ..engine import pattern as P
 from ..engine.facts import dotted, const, src, walk_func, str_value, enclosing_stmt, ancestors
-from .common import calls, stmt_nodes, contains, pn, access_paths, assigned_from, branch_paths
+from .common import calls, stmt_nodes, contains, pn, access_paths, assigned_from, branch_paths, resolve, resolve_deep
 
 CURSOR = ("match_position", "lineno", "matched_lineno", "matched_charpos")
 
@@ -140,7 +140,7 @@ def progress(ctx):
     mvars = {s.targets[0].id for s in walk_func(put) if isinstance(s, ast.Assign) and isinstance(s.targets[0], ast.Name) and isinstance(s.value, ast.Call) and dotted(s.value.func) == "self.match"}
     for c in [n for n in ast.walk(pl[0]) if isinstance(n, ast.Continue)]:
         ifn = getattr(c, "_parent", None)
-        ok = isinstance(ifn, ast.If) and isinstance(ifn.test, ast.Name) and ifn.test.id in mvars
+        ok = isinstance(ifn, ast.If) and ((isinstance(ifn.test, ast.Name) and ifn.test.id in mvars) or (isinstance(ifn.test, ast.Call) and dotted(ifn.test.func) == "self.match"))
         ctx.check(ok, "scan.continue@%d" % (conts.index(c) if c in conts else c.lineno - pl[0].lineno), db.where(c), "`continue` in parse_until_text not guarded by `if match`", "guarded by a match")
     ctx.check(isinstance(pl[0].body[-1], ast.Raise), "scan.fallthrough-raises", db.where(pl[0]), "parse_until_text can iterate without consuming", "loop body ends with raise")
     # the end-of-text bound is the length of the text that is lexed: nothing replaces self.text after the length was taken
@@ -204,11 +204,16 @@ def zero_width_consumer(ctx):
             # (c) accounted by slicing: the scanner returns self.text[startpos : cursor - len(terminator)]
             fn = db.func("lexer.Lexer.parse_until_text")
             hits = P.find(fn, "self.text[$sp:self.match_position - len($m.group(1))]")
+            if not hits:
+                # the terminator held in a local first
+                for node_, env_ in P.find(fn, "self.text[$sp:self.match_position - len($t)]"):
+                    if P.matches(resolve_deep(fn, env_["t"][1]), "$m.group(1)"):
+                        hits.append((node_, env_))
             ok = False
             for node_, env_ in hits:
                 spn = env_["sp"][1]
                 if isinstance(spn, ast.Name) and any(isinstance(s, ast.Assign) and src(s.targets[0]) == spn.id and src(s.value) == "self.match_position" for s in fn.body):
-                    ok = any(isinstance(a_, ast.Return) for a_ in ancestors(node_))
+                    ok = isinstance(node_, ast.Return) or any(isinstance(a_, ast.Return) for a_ in ancestors(node_))
             ctx.check(ok, key, where, "the scanner's fallback can match zero-width (stepping over one character) and the returned span is not the source slice from the saved start: characters are dropped from the expression", "stepped-over character stays inside the returned source slice [startpos : cursor - len(terminator)]")
             continue
         if name == "match_text":
@@ -343,7 +348,8 @@ def verbatim_flow(ctx):
             a = c.args[1]
             t = src(a)
             if name == "match_percent":
-                ok = P.has(c, "$m.group(1) + '%' + $m.group(2)")
+                ar = resolve_deep(fn, c.args[1])
+                ok = P.matches(ar, "$m.group(1) + '%' + $m.group(2)") or P.matches(ar, "'%s%%%s' % ($m.group(1), $m.group(2))")
                 ctx.check(ok, "text:match_percent", db.where(c), "%%%% escape produces %s instead of group(1) + '%%' + group(2)" % t, "leading space + one % + remaining %s")
             else:
                 # a match group, possibly through a local name
